@@ -12,6 +12,8 @@ ValsN(prog, t, d) ==
     [] t.k = "ptr" -> {Nil} \cup (IF d = 0 THEN {} ELSE {[k |-> "p", e |-> v] : v \in ValsN(prog, t.e, d - 1)})
     [] t.k = "slice" -> {Nil, [k |-> "s", es |-> <<>>]} \cup
                          (IF d = 0 THEN {} ELSE {[k |-> "s", es |-> <<v>>] : v \in ValsN(prog, t.e, d - 1)})
+    [] t.k = "map" -> {Nil, [k |-> "m", kv |-> {}]} \cup
+                       (IF d = 0 THEN {} ELSE {[k |-> "m", kv |-> {<<kk, v>>}] : kk \in ValsN(prog, t.key, 0), v \in ValsN(prog, t.e, d - 1)})
     [] t.k = "named" ->
          LET fs == FieldsOf(prog.shape, t.id) IN
          IF Len(fs) = 1 THEN {[k |-> "st", fs |-> <<v>>] : v \in ValsN(prog, fs[1].t, d)}
@@ -19,27 +21,42 @@ ValsN(prog, t, d) ==
 
 \* the extend function: E(v) = "E(<tok>)" (with "@c" when it receives the context value); it fails on injected tokens
 Mark(prog, v) == [k |-> "b", tok |-> "E(" \o v.tok \o ")" \o (IF prog.extCtx THEN "@c" ELSE "")]
-Ok(v) == [v |-> v, err |-> ""]
-Er(e) == [v |-> Nil, err |-> e]
+MarkC(v) == [k |-> "b", tok |-> "C(" \o v.tok \o ")"]                  \* Canon(string) string
+Ok(v) == [v |-> v, err |-> "", path |-> <<>>]
+Er(e, path) == [v |-> Nil, err |-> e, path |-> path]
+\* location elements as the wrapErrorsUsing package of the harness renders them
+PField(n) == n
+PIndex(i) == "[" \o ToString(i - 1) \o "]"
+PKey(kv) == "{" \o kv.tok \o "}"
 
-RECURSIVE Eval(_,_,_,_,_), EvalFields(_,_,_,_,_,_,_), EvalElems(_,_,_,_,_,_,_)
-Eval(prog, ms, ir, v, faults) ==
+RECURSIVE Eval(_,_,_,_,_,_), EvalFields(_,_,_,_,_,_,_,_,_), EvalElems(_,_,_,_,_,_,_,_)
+\* path: the location of the current position relative to the root (a sub-method starts a new relative path, its caller
+\* prepends its own: composing outermost first gives the path from the root)
+Eval(prog, ms, ir, v, faults, path) ==
   CASE ir.k = "copy" -> Ok(v)
-    [] ir.k = "ext" -> IF ir.retErr /\ v.tok \in faults THEN Er(v.tok) ELSE Ok(Mark(prog, v))
-    [] ir.k = "call" -> Eval(prog, ms, ms[ir.callee].body, v, faults)
-    [] ir.k = "valptr" -> LET r == Eval(prog, ms, ir.x, v, faults) IN IF r.err # "" THEN r ELSE Ok([k |-> "p", e |-> r.v])
+    [] ir.k = "ext" -> IF ir.fn = "C" THEN Ok(MarkC(v)) ELSE IF ir.retErr /\ v.tok \in faults THEN Er(v.tok, path) ELSE Ok(Mark(prog, v))
+    [] ir.k = "call" -> Eval(prog, ms, ms[ir.callee].body, v, faults, path)
+    [] ir.k = "valptr" -> LET r == Eval(prog, ms, ir.x, v, faults, path) IN IF r.err # "" THEN r ELSE Ok([k |-> "p", e |-> r.v])
     [] ir.k = "ptrptr" -> IF v = Nil THEN Ok(Nil)
-                          ELSE LET r == Eval(prog, ms, ir.x, v.e, faults) IN IF r.err # "" THEN r ELSE Ok([k |-> "p", e |-> r.v])
-    [] ir.k = "slice" -> IF v = Nil THEN Ok(Nil) ELSE EvalElems(prog, ms, ir.x, v.es, 1, <<>>, faults)
-    [] ir.k = "struct" -> EvalFields(prog, ms, ir.fs, v, 1, <<>>, faults)
-EvalFields(prog, ms, fs, v, i, acc, faults) ==
+                          ELSE LET r == Eval(prog, ms, ir.x, v.e, faults, path) IN IF r.err # "" THEN r ELSE Ok([k |-> "p", e |-> r.v])
+    [] ir.k = "slice" -> IF v = Nil THEN Ok(Nil) ELSE EvalElems(prog, ms, ir.x, v.es, 1, <<>>, faults, path)
+    [] ir.k = "map" -> IF v = Nil THEN Ok(Nil)
+                       ELSE IF v.kv = {} THEN Ok([k |-> "m", kv |-> {}])
+                       ELSE LET e == CHOOSE x \in v.kv : TRUE
+                                pk == Append(path, PKey(e[1]))
+                                rk == Eval(prog, ms, ir.kx, e[1], faults, pk) IN
+                            IF rk.err # "" THEN rk
+                            ELSE LET rv == Eval(prog, ms, ir.vx, e[2], faults, pk) IN
+                                 IF rv.err # "" THEN rv ELSE Ok([k |-> "m", kv |-> {<<rk.v, rv.v>>}])
+    [] ir.k = "struct" -> EvalFields(prog, ms, ir.fs, v, 1, <<>>, faults, path, ir.names)
+EvalFields(prog, ms, fs, v, i, acc, faults, path, names) ==
   IF i > Len(fs) THEN Ok([k |-> "st", fs |-> acc])
-  ELSE LET r == Eval(prog, ms, fs[i].x, v.fs[fs[i].src], faults) IN
-       IF r.err # "" THEN r ELSE EvalFields(prog, ms, fs, v, i + 1, Append(acc, r.v), faults)
-EvalElems(prog, ms, x, es, i, acc, faults) ==
+  ELSE LET r == Eval(prog, ms, fs[i].x, v.fs[fs[i].src], faults, Append(path, PField(names[i]))) IN
+       IF r.err # "" THEN r ELSE EvalFields(prog, ms, fs, v, i + 1, Append(acc, r.v), faults, path, names)
+EvalElems(prog, ms, x, es, i, acc, faults, path) ==
   IF i > Len(es) THEN Ok([k |-> "s", es |-> acc])
-  ELSE LET r == Eval(prog, ms, x, es[i], faults) IN
-       IF r.err # "" THEN r ELSE EvalElems(prog, ms, x, es, i + 1, Append(acc, r.v), faults)
+  ELSE LET r == Eval(prog, ms, x, es[i], faults, Append(path, PIndex(i))) IN
+       IF r.err # "" THEN r ELSE EvalElems(prog, ms, x, es, i + 1, Append(acc, r.v), faults, path)
 
 \* ---------------- declarative (C06 / C07)
 \* which named types are reachable from A, and is the extend function needed at all
@@ -48,9 +65,15 @@ ReachIds(prog, todo, done) ==
   IF todo = {} THEN done
   ELSE LET id == CHOOSE x \in todo : TRUE
            fs == FieldsOf(prog.shape, id)
-           next == {IF fs[i].t.k = "named" THEN fs[i].t.id ELSE IF fs[i].t.k \in {"ptr", "slice"} /\ fs[i].t.e.k = "named" THEN fs[i].t.e.id ELSE id : i \in DOMAIN fs}
+           next == {IF fs[i].t.k = "named" THEN fs[i].t.id ELSE IF fs[i].t.k \in {"ptr", "slice", "map"} /\ fs[i].t.e.k = "named" THEN fs[i].t.e.id ELSE id : i \in DOMAIN fs}
        IN ReachIds(prog, (todo \cup next) \ (done \cup {id}), done \cup {id})
-UsesExt(prog) == \E id \in ReachIds(prog, {"A"}, {}) : \E i \in DOMAIN FieldsOf(prog.shape, id) : FieldsOf(prog.shape, id)[i].t = INT /\ FieldsOf(prog.shape, id \o "2")[i].t = STR
+\* does the pair (s, t) need the fallible / context-taking extend function E somewhere (not descending into named types)?
+RECURSIVE NeedsE(_,_)
+NeedsE(s, t) == IF s = INT /\ t = STR THEN TRUE
+                ELSE IF s.k \in {"ptr", "slice"} THEN NeedsE(s.e, t.e)
+                ELSE IF s.k = "map" THEN NeedsE(s.key, t.key) \/ NeedsE(s.e, t.e)
+                ELSE FALSE
+UsesExt(prog) == \E id \in ReachIds(prog, {"A"}, {}) : \E i \in DOMAIN FieldsOf(prog.shape, id) : NeedsE(FieldsOf(prog.shape, id)[i].t, FieldsOf(prog.shape, id \o "2")[i].t)
 \* generation must succeed unless an error would be dropped or a required context is unavailable
 GenOK(prog) == ~(UsesExt(prog) /\ prog.extErr /\ ~prog.rootErr) /\ ~(UsesExt(prog) /\ prog.extCtx /\ ~prog.rootCtx)
 
@@ -58,7 +81,9 @@ RECURSIVE SMapN(_,_,_,_), Reached(_,_,_,_,_)
 \* C06: every int -> string position, at any depth, carries E's result (with the context passed unchanged)
 SMapN(prog, s, t, v) ==
   IF s = INT /\ t = STR THEN Mark(prog, v)
+  ELSE IF prog.extId /\ s = STR /\ t = STR THEN MarkC(v)                   \* ... and Canon's at every string -> string position, map keys included
   ELSE IF s.k = "basic" THEN v
+  ELSE IF s.k = "map" THEN (IF v = Nil THEN Nil ELSE [k |-> "m", kv |-> {<<SMapN(prog, s.key, t.key, e[1]), SMapN(prog, s.e, t.e, e[2])>> : e \in v.kv}])
   ELSE IF s.k = "ptr" THEN (IF v = Nil THEN Nil ELSE [k |-> "p", e |-> SMapN(prog, s.e, t.e, v.e)])
   ELSE IF s.k = "slice" THEN (IF v = Nil THEN Nil ELSE [k |-> "s", es |-> [i \in DOMAIN v.es |-> SMapN(prog, s.e, t.e, v.es[i])]])
   ELSE LET sf == FieldsOf(prog.shape, s.id) tf == FieldsOf(prog.shape, t.id) IN
@@ -67,11 +92,35 @@ SMapN(prog, s, t, v) ==
 Reached(prog, s, t, v, faults) ==
   IF s = INT /\ t = STR THEN (IF prog.extErr /\ v.tok \in faults THEN {v.tok} ELSE {})
   ELSE IF s.k = "basic" THEN {}
+  ELSE IF s.k = "map" THEN (IF v = Nil THEN {} ELSE UNION {Reached(prog, s.key, t.key, e[1], faults) \cup Reached(prog, s.e, t.e, e[2], faults) : e \in v.kv})
   ELSE IF s.k = "ptr" THEN (IF v = Nil THEN {} ELSE Reached(prog, s.e, t.e, v.e, faults))
   ELSE IF s.k = "slice" THEN (IF v = Nil THEN {} ELSE UNION {Reached(prog, s.e, t.e, v.es[i], faults) : i \in DOMAIN v.es})
   ELSE LET sf == FieldsOf(prog.shape, s.id) tf == FieldsOf(prog.shape, t.id) IN
        UNION {Reached(prog, sf[i].t, tf[i].t, v.fs[i], faults) : i \in DOMAIN tf}
+\* C07, wrapErrorsUsing: the location of the first failing position in conversion order (fields in target order, elements
+\* in order, map key before map value): target field names, slice indices, source map keys, outermost first.  <<"-">> = none
+RECURSIVE FaultPath(_,_,_,_,_,_), FaultFields(_,_,_,_,_,_,_), FaultElems(_,_,_,_,_,_,_)
+NoPath == <<"-">>
+FaultPath(prog, s, t, v, faults, path) ==
+  IF s = INT /\ t = STR THEN (IF prog.extErr /\ v.tok \in faults THEN path ELSE NoPath)
+  ELSE IF s.k = "basic" THEN NoPath
+  ELSE IF s.k = "ptr" THEN (IF v = Nil THEN NoPath ELSE FaultPath(prog, s.e, t.e, v.e, faults, path))
+  ELSE IF s.k = "slice" THEN (IF v = Nil THEN NoPath ELSE FaultElems(prog, s.e, t.e, v.es, 1, faults, path))
+  ELSE IF s.k = "map" THEN
+       (IF v = Nil \/ v.kv = {} THEN NoPath
+        ELSE LET e == CHOOSE x \in v.kv : TRUE pk == Append(path, PKey(e[1])) fk == FaultPath(prog, s.key, t.key, e[1], faults, pk) IN
+             IF fk # NoPath THEN fk ELSE FaultPath(prog, s.e, t.e, e[2], faults, pk))
+  ELSE FaultFields(prog, FieldsOf(prog.shape, s.id), FieldsOf(prog.shape, t.id), v, 1, faults, path)
+FaultFields(prog, sf, tf, v, i, faults, path) ==
+  IF i > Len(tf) THEN NoPath
+  ELSE LET f == FaultPath(prog, sf[i].t, tf[i].t, v.fs[i], faults, Append(path, PField(tf[i].n))) IN
+       IF f # NoPath THEN f ELSE FaultFields(prog, sf, tf, v, i + 1, faults, path)
+FaultElems(prog, s, t, es, i, faults, path) ==
+  IF i > Len(es) THEN NoPath
+  ELSE LET f == FaultPath(prog, s, t, es[i], faults, Append(path, PIndex(i))) IN
+       IF f # NoPath THEN f ELSE FaultElems(prog, s, t, es, i + 1, faults, path)
 ValueOK(prog, v, faults, o) ==
   LET reached == Reached(prog, RootSrc, RootTgt, v, faults) IN
-  IF reached = {} THEN o.err = "" /\ o.v = SMapN(prog, RootSrc, RootTgt, v) ELSE o.err \in reached
+  IF reached = {} THEN o.err = "" /\ o.v = SMapN(prog, RootSrc, RootTgt, v)
+  ELSE o.err \in reached /\ (prog.wrap = "using" => o.path = FaultPath(prog, RootSrc, RootTgt, v, faults, <<>>))
 =============================================================================
